@@ -209,12 +209,14 @@ Definition rollback_impl : M := fun s =>
        then bind (emit Rollback) (fun s => (Raise OperationalError, s)) (set_rbfail false s)
        else emit Rollback s.
 
-(* RootTransaction._close_impl(try_deactivate) *)
+(* RootTransaction._close_impl(try_deactivate): since fix fff6083 the savepoint objects are cancelled
+   in the finally clause, i.e. also when the rollback raised *)
 Definition root_close_impl (k : nat) (try_deact : bool) : M :=
   finally
-    (bind (fun s => if active k s then rollback_impl s else (Ok, s)) cancel_nested)
-    (bind (fun s => if active k s || try_deact then deact_root k s else (Ok, s))
-          (fun s => if opt_is (c_root s) k then (Ok, set_root None s) else (Ok, s))).
+    (fun s => if active k s then rollback_impl s else (Ok, s))
+    (bind cancel_nested
+       (bind (fun s => if active k s || try_deact then deact_root k s else (Ok, s))
+             (fun s => if opt_is (c_root s) k then (Ok, set_root None s) else (Ok, s)))).
 
 (* RootTransaction._do_commit *)
 Definition root_do_commit (k : nat) : M := fun s =>
